@@ -21,7 +21,7 @@ import traceback
 
 from . import core
 
-WATCHDOG_S = {'quick': 900, 'thorough': 5400}
+WATCHDOG_S = {'quick': 1800, 'thorough': 7200}
 
 
 class Context:
